@@ -10,7 +10,7 @@ WORK = os.path.join(e2v.SCRATCH, "c07")
 def setup(src):
     e2v.build_harness("h_init", src)
     e2v.build_driver("initgeom", ["theories/Geometry/InitGeom.vo"], ["initgeom_model"])
-    e2v.build_driver("layout", ["theories/Layout/Layout.vo"], ["layout_model"])
+    e2v.build_driver("layout", ["theories/Layout/Layout.vo", "theories/Layout/BackupBgs.vo"], ["layout_model"])
     e2v.build_iotrace()
 
 
@@ -435,7 +435,7 @@ def run(res, replay=None):
     res.add_proof(pr)
     hexe = e2v.build_harness("h_init", src)
     mexe = e2v.build_driver("initgeom", ["theories/Geometry/InitGeom.vo"], ["initgeom_model"])
-    lexe = e2v.build_driver("layout", ["theories/Layout/Layout.vo"], ["layout_model"])
+    lexe = e2v.build_driver("layout", ["theories/Layout/Layout.vo", "theories/Layout/BackupBgs.vo"], ["layout_model"])
     res.cov["trusted_base"] = e2v.TRUSTED_COMMON + [
         "lib/extfmt.py consistency(): the check's own reading of the format and its invariants",
         "harness/h_init.c calls ext2fs_initialize directly; harness/iotrace.c observes mke2fs -n",
